@@ -146,7 +146,8 @@ CLAIMED.update({
              "node's span), root RunStart first and root RunEnd last with the caller-observed status. The harness additionally checks one "
              "shutdown per top-level call, silence of rejected calls, and that a nested run is parented to the node that launched it. For "
              "synchronous runs of flat graphs the emission itself is modelled (EventsModel.run_events, compared event by event with the real "
-             "stream) and proved well-formed for every sequence of node executions (C12_model).",
+             "stream, both from the calls the implementation made and from the ENGINE MODEL's own run of the program: events_of_result) and proved "
+             "well-formed for every sequence of node executions (C12_model, C12_model_run).",
         design_ref="DESIGN.md section 5 C12",
         note="The for-all over programs is sampled (translation validation per trace); completeness of the checker (no false rejection) is "
              "established empirically on the unchanged tree beyond the modelled family (synchronous, flat); nested / mapped / asynchronous "
